@@ -15,7 +15,17 @@ from dvc_data.hashfile.tree import Tree
 from vf.env import make_env
 from vf.hlib import B, HarnessGap, NoTracing, cube, journal, pick, violation
 
-CONT = [b"s0", b"s1\n", b""]
+def _zero_prefixed():
+    """a content whose md5 starts with '00': it lands in the prefix the size estimation of a traversable remote lists"""
+    i = 0
+    while True:
+        c = b"z%d" % i
+        if hashlib.md5(c).hexdigest().startswith("00"):
+            return c
+        i += 1
+
+
+CONT = [b"s0", _zero_prefixed() if cube("zero", False) else b"s1\n", b""]
 FO = [hashlib.md5(c).hexdigest() for c in CONT]
 LISTING = cube("listing", [[0, 1]])
 NF = int(cube("nfiles", 2))
@@ -32,7 +42,16 @@ def _mktree(idxs):
 
 
 def _odb(env, kind, name):
-    return {"local": env.local_odb, "base": env.base_odb, "remote": env.remote_odb}[kind](name)
+    odb = {"local": env.local_odb, "base": env.base_odb, "remote": env.remote_odb}[kind](name)
+    mode = cube("lookup", None)
+    if mode and kind != "local":
+        # scale the remote-size heuristics of ObjectDB.oids_exist so that its other strategies are reached with a handful of objects:
+        # "exists": estimated size large relative to the query -> per-object existence for what the '00' listing did not show;
+        # "traverse": forced prefix-by-prefix traversal (255 prefix listings)
+        odb.fs.LIST_OBJECT_PAGE_SIZE = 1
+        if mode == "traverse":
+            odb.fs._ALWAYS_TRAVERSE = True
+    return odb
 
 
 def _put(env, odb, oid, data):
